@@ -1,13 +1,18 @@
-use palette::{convert::FromColorUnclamped, encoding, rgb::Rgb, Hsv, Hsl, Srgb};
+use palette::{convert::FromColorUnclamped, Hsluv, Okhsl, Oklab, Xyz, Luv, Lchuv, white_point::D65};
 fn main() {
-    let a = Rgb::<encoding::AdobeRgb, f64>::new(0.0, 1.0, 1.0);
-    let s = Srgb::<f64>::from_color_unclamped(a);
-    println!("adobe cyan -> srgb {:?}", s);
-    println!("-> hsv {:?}", Hsv::<encoding::Srgb, f64>::from_color_unclamped(s));
-    println!("-> hsl {:?}", Hsl::<encoding::Srgb, f64>::from_color_unclamped(s));
-    let h = Hsv::<encoding::AdobeRgb, f64>::new(180.0, 1.0, 1.0);
-    println!("hsv<adobe> -> hsv<srgb> {:?}", Hsv::<encoding::Srgb, f64>::from_color_unclamped(h));
-    let r = Srgb::<f64>::new(-0.5, 1.0, 0.7);
-    println!("srgb {:?} -> hsv {:?}", r, Hsv::<encoding::Srgb, f64>::from_color_unclamped(r));
-    println!(" -> back {:?}", Srgb::<f64>::from_color_unclamped(Hsv::<encoding::Srgb, f64>::from_color_unclamped(r)));
+    let h = Hsluv::<D65, f64>::new(59.575389445989636, 100.0226784936911, 99.97025886962776);
+    let lch = Lchuv::<D65,f64>::from_color_unclamped(h);
+    let luv = Luv::<D65,f64>::from_color_unclamped(lch);
+    let xyz = Xyz::<D65,f64>::from_color_unclamped(luv);
+    let lab = Oklab::<f64>::from_color_unclamped(xyz);
+    let ok = Okhsl::<f64>::from_color_unclamped(lab);
+    println!("{:?}\n{:?}\n{:?}\n{:?}\n{:?}", lch, luv, xyz, lab, ok);
+    let lab2 = Oklab::<f64>::from_color_unclamped(ok);
+    let xyz2 = Xyz::<D65,f64>::from_color_unclamped(lab2);
+    let luv2 = Luv::<D65,f64>::from_color_unclamped(xyz2);
+    let lch2 = Lchuv::<D65,f64>::from_color_unclamped(luv2);
+    let h2 = Hsluv::<D65,f64>::from_color_unclamped(lch2);
+    println!("back:\n{:?}\n{:?}\n{:?}\n{:?}\n{:?}", lab2, xyz2, luv2, lch2, h2);
+    let ok_direct = Okhsl::<f64>::from_color_unclamped(h);
+    println!("direct {:?} -> {:?}", ok_direct, Hsluv::<D65,f64>::from_color_unclamped(ok_direct));
 }
